@@ -34,6 +34,7 @@ structure Dump where
   csbyh : List Nat := []            -- ChainService.GetBlockHash 0,1,2,… until it fails
   cstip : Option Node := none       -- ChainService.BestBlock
   csbad : Nat := 0                  -- hashes on which GetBlockHeight / GetBlockHeader disagree with the store
+  tipread : String := ""            -- "HANG": the in-memory filter tip could not be read while an event was observable
   storedAt : List Bool := []        -- per notification: (disconnected) the block was still in the store when the event was received
   pseen : Nat := 0                  -- notifications the sink had taken when the backlog was requested
   pre   : List (Bool × Nat × Nat) := []   -- per notification: block store tip (height, id) the slow sink saw right before taking it
@@ -284,6 +285,12 @@ def c19TipCovers (a : Dump) : List Fail :=
     | .conn _ h _ => decide (p.2 < h)
     | _ => false)
   if bad then [("connected-before-tip", s!"a block was announced while the in-memory filter tip was still below it: events {repr a.ntf}, in-memory tip at each {a.memAt}")] else []
+
+/-- a backlog request must be servable at every moment an event is observable: the in-memory tip
+was readable when each event arrived, and a request issued from inside the batch returned -/
+def c19BacklogEnabled (a : Dump) : List Fail :=
+  (if a.tipread == "HANG" then [("backlog-request-blocks-writer", s!"while an event of the batch was observable the in-memory filter tip could not be read (its mutex was held): a subscriber registering now blocks, and the writer waits for it to take the next event: {repr a.ntf}")] else []) ++
+  (if a.pres == "HANG" then [("backlog-request-blocks-writer", "a backlog request issued while the batch was being announced did not return")] else [])
 
 /-- a subscriber that registers right after the `k`-th event of a write with a backlog request for
 height `h`: backlog and the remaining live events, replayed on the chain committed at `h`, must
